@@ -4,7 +4,7 @@ NS = 10 ** 9
 FRAC_MAX = 100_000_000          # cumulative fractional part kept below this (impl_c26.rs: REAL_TIME_MARGIN = 1 s - this - slack)
 BIG_SECS = [2 ** 30, 2 ** 31 - 1, 2 ** 31, 2 ** 31 + 1, 2 ** 32 - 1, 2 ** 32, 2 ** 32 + 1, 10 ** 9,
             1431655766, 1431655765, 2 ** 33, 3 * 2 ** 32 + 5, 2 ** 40, 31_536_000, 10 * 31_536_000]
-KINDS = ["na", "nb", "nc", "nA", "da", "wq", "wzz", "xq", "xab", "rq", "f"]
+KINDS = ["na", "nb", "nc", "nA", "da", "wq", "wzz", "yq", "zq", "cq", "xq", "xab", "rq", "f"]
 
 
 def gen_params(rng):
@@ -80,7 +80,7 @@ def gen(rng, tier):
         if rng.random() < 0.01:
             size = 0
         kind = rng.choice(KINDS)
-        rate = {"n": ne, "d": ne, "w": ne, "x": nx}.get(kind[0], er)
+        rate = {"n": ne, "d": ne, "w": ne, "y": ne, "z": ne, "c": ne, "x": nx}.get(kind[0], er)
         gaps = gen_gaps(rng, max(rate, 1), max(win, 1))
         if size > 1000:
             # the aging hook walks the whole table: keep the number of idle periods (and with it the real time) small
